@@ -240,7 +240,7 @@ class Check:
         n = 0
         for sig, items in sorted(seen.items()):
             n += 1
-            if n > 20:
+            if n > 120:
                 break
             path = os.path.join(rdir, "%s-%d.json" % (self.pid, n))
             with open(path, "w") as fh:
